@@ -82,6 +82,8 @@ type RunFile struct {
 	// E-CONC: per-client op lists and the explicit schedule.
 	Clients  [][]Op `json:"clients,omitempty"`
 	Schedule []int  `json:"schedule,omitempty"`
+	// Isolate: execute in a child process (the run kills the process executing it).
+	Isolate bool `json:"isolate,omitempty"`
 	// Filled when a violation was found.
 	Violation *Violation `json:"violation,omitempty"`
 }
